@@ -304,8 +304,8 @@ func (c *Caller) InvokeContext(ctx context.Context, id string, name string, args
 			calls = cc.(*callCache)
 		}
 	}
-	calls.Append(newCall(index, name, args))
-	verifYield("caller.appended", index)
+	// the result channel is registered before the call becomes visible to the provider: a provider
+	// that fetches and answers the call at once must find somebody waiting for the answer
 	var results *resultMap
 	if rm, ok := c.results.Get(id); ok {
 		results = rm.(*resultMap)
@@ -318,6 +318,8 @@ func (c *Caller) InvokeContext(ctx context.Context, id string, name string, args
 	}
 	result := make(chan returnValue, 1)
 	results.Set(index, result)
+	calls.Append(newCall(index, name, args))
+	verifYield("caller.appended", index)
 	c.response(id)
 	if c.Timeout > 0 {
 		ctx, cancel := context.WithTimeout(ctx, c.Timeout)
